@@ -175,6 +175,20 @@ func (m *QueryMon) Step(w *World, _ string) {
 			}
 		}
 	}
+	// a delete event has to come from the service: a delete event of its own, or
+	// a system.notFound answer to a query request or a re-fetch (the scenarios
+	// record both in Svc.Deleted) - not from a request that merely failed
+	for i, c := range w.Conns {
+		for _, ev := range c.Client.EventLog[m.seenEv[i]:] {
+			if ev.Event != "delete" {
+				continue
+			}
+			name, _ := splitKey(strings.ReplaceAll(ev.RID, "{cid}", c.CID))
+			if !w.Svc.Deleted[name] {
+				w.Fail("C13", "delete-without-cause", "%s received %s.delete although the service neither deleted %s nor answered system.notFound for it", c.Label, ev.RID, w.Canon(name))
+			}
+		}
+	}
 	for i, c := range w.Conns {
 		m.seenEv[i] = len(c.Client.EventLog)
 		m.seenRsp[i] = len(c.Client.Resp)
